@@ -330,3 +330,5 @@ def result(chk, fx):
 def pre(chk):
     from . import c19
     c19.hlp_t(chk, ("clang++",))
+    from .. import tlw
+    tlw.run(chk, "RULE-T", "w_ruletype.cpp")
